@@ -12,7 +12,7 @@
 From Coq Require Import NArith ZArith List Bool.
 From Carquet Require Import Base.Res Gen.Enums_gen Gen.Writer_gen Thrift.ThriftModel Thrift.ParquetMetaDesc Thrift.ParquetMetaModel
      Stats.Order Stats.StatsBuilderModel Comp.SnappyModel Comp.Lz4Model
-     Writer.TableSpec Writer.PageWriterModel Writer.FileWriterModel.
+     Writer.TableSpec Writer.PageWriterModel Writer.FileWriterModel Reader.ReadAllModel.
 Import ListNotations.
 
 Definition T_I32 : N := 5%N.
@@ -109,6 +109,77 @@ Definition codec_compress (codec : Z) (body : list N) : list N :=
 Definition run_concrete (sch : list column) (o : options) (ops : list wop) : res (list Z * list N * bool) :=
   match run_writer (codec_compress (o_codec o)) thrift_page_header thrift_footer sch o ops with
   | Ok (sts, w, closed) => Ok (sts, f_out w, closed)
+  | Err e => Err e
+  | Fault f => Fault f
+  end.
+
+(* ------------------------------------------------------------------------------------------ *)
+(** * The concrete parsers the reader model is instantiated with (tie of the reader half) *)
+
+Definition slot_int (r : list mval) (i : nat) : Z := match nth_error r i with Some (MInt z) => z | _ => 0%Z end.
+Definition slot_bytes (r : list mval) (i : nat) : list N := match nth_error r i with Some (MBytes (Some b)) => b | _ => [] end.
+Definition slot_arr (r : list mval) (i : nat) : list mval := match nth_error r i with Some (MArr l) => l | _ => [] end.
+Definition slot_rec (r : list mval) (i : nat) : list mval := match nth_error r i with Some (MRec l) => l | _ => [] end.
+Definition as_rec (v : mval) : list mval := match v with MRec l => l | _ => [] end.
+
+Definition u32_of (z : Z) : N := Z.to_N (z mod 4294967296).      (* (uint32_t)page_header.crc *)
+Definition nat_N (z : Z) : N := Z.to_N z.
+
+(** parquet_parse_page_header, reduced to what load_next_page uses *)
+Definition concrete_parse_header (bs : list N) : res (hdr_core * N) :=
+  match parse_page_header bs with
+  | Ok (r, used) =>
+      Ok (mkhc (slot_int r 0) (nat_N (slot_int r 1)) (nat_N (slot_int r 2))
+               (if Z.eqb (slot_int r 3) 0 then None else Some (u32_of (slot_int r 4)))
+               (nat_N (slot_int r 5)) (slot_int r 6) (slot_int r 7), used)
+  | Err e => Err e
+  | Fault f => Fault f
+  end.
+
+Definition ptype_of_code (z : Z) : TableSpec.ptype :=
+  if Z.eqb z E_CARQUET_PHYSICAL_BOOLEAN then TableSpec.TBool
+  else if Z.eqb z E_CARQUET_PHYSICAL_INT32 then TableSpec.TInt32
+  else if Z.eqb z E_CARQUET_PHYSICAL_INT64 then TableSpec.TInt64
+  else if Z.eqb z E_CARQUET_PHYSICAL_FLOAT then TableSpec.TFloat
+  else if Z.eqb z E_CARQUET_PHYSICAL_DOUBLE then TableSpec.TDouble
+  else if Z.eqb z E_CARQUET_PHYSICAL_BYTE_ARRAY then TableSpec.TByteArray
+  else TableSpec.TFlba.
+
+Definition column_of_elem (e : list mval) : column :=
+  mkcol (slot_bytes e 5) (ptype_of_code (slot_int e 1))
+        (if Z.eqb (slot_int e 4) E_CARQUET_REPETITION_OPTIONAL then Optional else Required) (nat_N (slot_int e 2)).
+
+(** parquet_parse_file_metadata + build_schema for flat files, reduced to [file_meta] *)
+Definition concrete_parse_footer (bs : list N) : res file_meta :=
+  match parse_file_metadata bs with
+  | Ok (r, _) =>
+      let sch := map (fun e => column_of_elem (as_rec e)) (tl (slot_arr r 1)) in
+      let chunk := fun (cc : mval * column) =>
+        let md := slot_rec (as_rec (fst cc)) 3 in
+        mkcm (mkcol (match slot_arr md 2 with MBytes (Some n) :: _ => n | _ => [] end)
+                    (ptype_of_code (slot_int md 0)) (c_rep (snd cc)) (c_tlen (snd cc)))
+             (slot_int md 3) (nat_N (slot_int md 8)) (nat_N (slot_int md 4)) (nat_N (slot_int md 6)) (nat_N (slot_int md 5)) in
+      let group := fun (g : mval) =>
+        let gr := as_rec g in
+        mkrg (map chunk (combine (slot_arr gr 0) sch)) (nat_N (slot_int gr 2)) (nat_N (slot_int gr 1))
+             (nat_N (slot_int gr 4)) (nat_N (slot_int gr 6)) (nat_N (slot_int gr 8)) in
+      Ok (mkfm (nat_N (slot_int r 0)) sch (nat_N (slot_int r 2)) (map group (slot_arr r 3)) (slot_bytes r 5))
+  | Err e => Err e
+  | Fault f => Fault f
+  end.
+
+Definition codec_decompress (codec : Z) (s : list N) (cap : N) : res (list N) :=
+  if Z.eqb codec E_CARQUET_COMPRESSION_SNAPPY then SnappyModel.decompress s cap
+  else if Z.eqb codec E_CARQUET_COMPRESSION_LZ4 || Z.eqb codec E_CARQUET_COMPRESSION_LZ4_RAW
+       then Lz4Model.decompress s cap
+       else Ok s.
+
+(** the reader model on the bytes of a file: codec from the first chunk (the writer uses one codec per file) *)
+Definition read_concrete (verify : bool) (file : list N) : res read_result :=
+  let codec_of := fun (m : file_meta) =>
+    match fm_groups m with g :: _ => match rg_chunks g with cm :: _ => cm_codec cm | [] => 0%Z end | [] => 0%Z end in
+  match FooterModel.open file_meta concrete_parse_footer FooterModel.Buffer file with
+  | Ok m => read_all (codec_of m) (codec_decompress (codec_of m)) concrete_parse_header concrete_parse_footer verify file
   | Err e => Err e
   | Fault f => Fault f
   end.
